@@ -13,7 +13,7 @@
          row(s) with ` no-failing-input-found`
        listed known findings: KNOWN-FINDING lines (static row still inconsistent and/or reproduced)
 """
-import glob, json, os, re, shutil, subprocess, time
+import fnmatch, glob, json, os, re, shutil, subprocess, time
 
 PKG = "github.com/enbility/spine-go/"
 
@@ -88,26 +88,67 @@ def parse_race_log(text):
 
 
 def classify_report(rep, sites):
-    """(class, detail): class = race:<field>:<accessorA>:<accessorB> (accessors sorted)"""
+    """(class, detail): class = race:<field>:<accessorA>:<accessorB> (accessors sorted).
+    accessor = innermost spine-go frame of the access; `~reflect.DeepEqual` is appended when the
+    access is made by reflect.DeepEqual called from there (the location is then arbitrary: field "heap")."""
     sides = []
+    deep = False
     for acc in rep["accesses"]:
         accessor, site = None, ""
+        via = ""
         for fn, st in acc["frames"]:
             n = norm_func(fn)
             if n:
-                accessor, site = n, st
+                accessor, site = n + via, st
                 break
+            if fn == "reflect.DeepEqual":
+                via = "~reflect.DeepEqual"
         if accessor is None:
             # no spine-go frame at all on this side: harness or library code
             top = acc["frames"][0] if acc["frames"] else ("?", "")
             accessor, site = "outside:" + top[0], top[1]
+        if via and accessor.endswith(via):
+            deep = True
         sides.append((accessor, site, acc["kind"]))
     fa = set(sites.get(sides[0][1], []))
     fb = set(sites.get(sides[1][1], []))
     common = sorted(fa & fb) or sorted(fa | fb)
-    field = common[0] if len(common) >= 1 else "heap"
+    field = common[0] if len(common) >= 1 and not deep else "heap"
     a, b = sorted([sides[0][0], sides[1][0]])
     return "race:%s:%s:%s" % (field, a, b), {"sides": sides, "candidate_fields": common}
+
+
+def known_match(c, known):
+    """exact class, or - for races on memory outside the static table only (field "heap") - a listed
+    pattern race:heap:<accessor pattern>:<accessor pattern> (fnmatch, either order)"""
+    if c in known:
+        return c
+    parts = c.split(":", 3)
+    if len(parts) == 4 and parts[0] == "race" and parts[1] == "heap":
+        x, y = split_accessors(parts[2] + ":" + parts[3])
+        for k in known:
+            kp = k.split(":", 3)
+            if len(kp) == 4 and kp[0] == "race" and kp[1] == "heap" and ("*" in k or "?" in k):
+                p1, p2 = split_accessors(kp[2] + ":" + kp[3])
+                if (fnmatch.fnmatchcase(x, p1) and fnmatch.fnmatchcase(y, p2)) or (fnmatch.fnmatchcase(y, p1) and fnmatch.fnmatchcase(x, p2)):
+                    return k
+    return None
+
+
+def split_accessors(s):
+    """'a:b' -> (a, b) where an accessor may itself start with 'outside:'"""
+    toks = s.split(":")
+    out, i = [], 0
+    while i < len(toks):
+        if toks[i] == "outside" and i + 1 < len(toks):
+            out.append("outside:" + toks[i + 1])
+            i += 2
+        else:
+            out.append(toks[i])
+            i += 1
+    while len(out) < 2:
+        out.append("")
+    return out[0], ":".join(out[1:])
 
 
 def slug(s):
@@ -294,8 +335,9 @@ def run(check, pid, tier, seed, replay):
     reproduced = {}
     for c in sorted(found):
         e = found[c]
-        if c in known:
-            reproduced[c] = e["count"]
+        k = known_match(c, known)
+        if k:
+            reproduced[k] = reproduced.get(k, 0) + e["count"]
             continue
         n += 1
         rp = replay_file("race" if c.startswith("race:") else "panic", n, {"property": pid, "class": c, "occurrences": e["count"], "scenario": e["scenario"],
